@@ -68,6 +68,54 @@ def slashingBegin : List Vote → App → Except Halt App
     | .error h => .error h
     | .ok s' => slashingBegin rest s'
 
+/-! ### x/evidence: double-sign evidence delivered with the block (`handleEquivocationEvidence`) -/
+
+structure Evid where
+  key : Nat
+  /-- infraction height -/
+  height : Int
+  /-- the validator's voting power at the infraction, as CometBFT reports it -/
+  power : Int
+  deriving Repr, DecidableEq, Inhabited
+
+/-- x/slashing's `SlashFractionDoubleSign`; the harness keeps the SDK default, 5 % -/
+def slashDoubleE18 : Int := 50000000000000000
+
+/-- `DoubleSignJailEndTime` (year 9999) as nanoseconds since genesis, saturated to a 64-bit duration (how the harness
+    prints it) -/
+def tFar : Int := 9223372036854775807
+
+/-- one piece of equivocation evidence.  Not modelled: the age check (the generator sends fresh evidence only) and the
+    public-key lookup (the relation is written by the creation hook both x/staking's genesis and PoA's admission call) -/
+def handleEvidence (s : App) (e : Evid) : Except Halt App :=
+  match s.valByKey e.key with
+  | none => .error .error                         -- `ValidatorByConsAddr` returns an error: the BeginBlocker fails
+  | some v =>
+    if v.status == .unbonded then .ok s
+    else
+      match s.getInfo e.key with
+      | none => .error .panic
+      | some info =>
+        if info.tomb then .ok s
+        else
+          match s.slash e.key (e.height - 1) e.power slashDoubleE18 with
+          | .err => .error .error
+          | .ok s1 =>
+            match (if v.jailed then some s1 else s1.jail e.key) with
+            | none => .error .panic
+            | some s2 =>
+              match s2.getInfo e.key with
+              | none => .error .error
+              | some i => .ok (s2.setInfo e.key { i with jailedUntil := tFar, tomb := true })
+
+/-- x/evidence BeginBlocker -/
+def evidenceBegin : List Evid → App → Except Halt App
+  | [], s => .ok s
+  | e :: rest, s =>
+    match s.handleEvidence e with
+    | .error h => .error h
+    | .ok s' => evidenceBegin rest s'
+
 /-- result of a message handler: success, a registered/unregistered error, or an outcome the
     model does not predict (messages of unmodelled modules; they change no modelled state) -/
 inductive MsgR where
